@@ -1859,15 +1859,18 @@ class SMap(Sym):
     Values are scalars of one z3 sort (`mk`: z3 term -> python/symbolic value; `un`: value -> z3 term).  Mutable box, like a
     dict.  Only what the code under contract uses is modelled: d[k] = v, d[k], d.get(k[, default]), k in d."""
 
-    def __init__(self, has, val, mk=None, un=None, name="map"):
+    def __init__(self, has, val, mk=None, un=None, name="map", keyfn=None):
         self.has = has
         self.val = val
         self.mk = mk or wrap
         self.un = un or term
         self.name = name
         self.t = None
+        self.keyfn = keyfn  # optional: python key object -> z3 term of the array's index sort (None: never present)
 
     def _key(self, k):
+        if self.keyfn is not None:
+            return self.keyfn(k)
         if isinstance(k, (str, SStr)):
             return term(k)
         return None  # a key of another type (None, int ...) is never present: only strings are stored
@@ -1893,6 +1896,46 @@ def _smap_get(interp, d, k, default=None):
     if interp.ctx.branch(z3.Select(d.has, kt)):
         return d.mk(z3.Select(d.val, kt))
     return default
+
+
+def _smap_update(interp, d, other):
+    """d.update(other) for two symbolic maps over the same key / value sorts: other's entries win (pointwise, as z3 lambdas)"""
+    if not isinstance(other, SMap):
+        if isinstance(other, dict) and not other:
+            return None
+        raise Undecided("dict.update of a symbolic map with something that is not a symbolic map")
+    ks = d.has.sort().domain()
+    if other.has.sort().domain() != ks or other.val.sort() != d.val.sort():
+        raise Undecided("dict.update of symbolic maps of different sorts")
+    x = z3.FreshConst(ks, "key")
+    d.has, d.val = (z3.Lambda([x], z3.Or(z3.Select(d.has, x), z3.Select(other.has, x))),
+                    z3.Lambda([x], z3.If(z3.Select(other.has, x), z3.Select(other.val, x), z3.Select(d.val, x))))
+    return None
+
+
+def _seq_extend(interp, s, xs):
+    """list.extend on an unaliased symbolic-length list with another sequence (symbolic or concrete)"""
+    if not getattr(s, "mutable", False):
+        raise Undecided("extend of a symbolic sequence that is not known to be an unaliased list")
+    if isinstance(xs, (list, tuple)):
+        for x in xs:
+            _seq_append(interp, s, x)
+        return None
+    if not isinstance(xs, SSeq):
+        raise Undecided("list.extend with an unmodelled iterable")
+    old_len, old_get, xs_get, xs_len = s.len, s.get, xs.get, xs.len
+
+    def get(i):
+        if interp.ctx.branch(i < old_len):
+            return old_get(i)
+        return xs_get(z3.simplify(i - old_len))
+    s.len = z3.simplify(old_len + xs_len)
+    s.get = get
+    s._cache = {}
+    if not hasattr(s, "extended"):
+        s.extended = []
+    s.extended.append((old_len, xs_len, xs_get))
+    return None
 
 
 def _smap_contains(interp, d, k):
@@ -2931,7 +2974,7 @@ def _seq_pop(interp, s, *idx):
 
 
 METHODS = {
-    (SSeq, "append"): _seq_append, (SSeq, "pop"): _seq_pop,
+    (SSeq, "append"): _seq_append, (SSeq, "pop"): _seq_pop, (SSeq, "extend"): _seq_extend,
     (SSet, "difference"): _set_difference, (SSet, "union"): _set_union,
     (SSet, "intersection"): _set_intersection, (SSet, "add"): _set_add, (SSet, "remove"): _set_remove,
     (SSet, "discard"): _set_discard, (SSet, "copy"): _set_copy, (SSet, "update"): _set_update,
@@ -2939,5 +2982,5 @@ METHODS = {
     (SStr, "startswith"): _str_startswith, (SStr, "endswith"): _str_endswith, (SStr, "replace"): _str_replace,
     (SStr, "isalpha"): _str_isalpha, (SStr, "isalnum"): _str_isalnum, (SStr, "isdigit"): _str_isdigit,
     (SDict, "get"): _sdict_get, (SDict, "__contains__"): _sdict_contains,
-    (SMap, "get"): _smap_get, (SMap, "__contains__"): _smap_contains,
+    (SMap, "get"): _smap_get, (SMap, "__contains__"): _smap_contains, (SMap, "update"): _smap_update,
 }
